@@ -30,7 +30,11 @@ def gen_table_case(rng, nmax, mmax):
     n = rng.randint(2 * m, max(2 * m, nmax))
     K = rng.choice([0, 0, 1, 2, 3, 4, 5, 6, 8, Fraction(1, 2), Fraction(5, 4), Fraction(7, 2)])
     slack = rng.randint(1, 5)
-    return {"n": n, "m": m, "K": str(K), "c": superadditive_table(rng, n, slack, rng.choice([0.3, 0.6, 0.9]))}
+    c = superadditive_table(rng, n, slack, rng.choice([0.3, 0.6, 0.9]))
+    if rng.random() < 0.35:  # negative-valued costs (log-likelihood-like): shifting by -d*(e-s) keeps the split inequality
+        d = rng.randint(1, 3)
+        c = [[c[s][e] - d * (e - s) if e > s else 0 for e in range(n + 1)] for s in range(n + 1)]
+    return {"n": n, "m": m, "K": str(K), "c": c}
 
 
 def table_line(case, delay=None, pick="first", pr="strict"):
@@ -191,7 +195,11 @@ def gen_builtin_case(rng, nmax):
     else:
         X = [[rng.choice([0, 0, 0, 5, -4]) + rng.randint(0, 1) for _ in range(p)] for _ in range(n)]
     scale = rng.choice([0.0, 0.05, 0.1, 0.3, 0.5, 1.0, 2.0])
-    return {"n": n, "m": m, "p": p, "cost": cost, "X": X, "scale": scale}
+    case = {"n": n, "m": m, "p": p, "cost": cost, "X": X, "scale": scale}
+    if rng.random() < 0.4:  # the same detector object has already been used on other data of the same shape
+        case["warm"] = [[rng.randint(-3, 3) for _ in range(p)] for _ in range(n)]
+        case["via"] = rng.choice(["transform_scores", "predict"])
+    return case
 
 
 def impl_builtin(case):
@@ -202,10 +210,19 @@ def impl_builtin(case):
     n, m = case["n"], case["m"]
     mk = (lambda: L2Cost()) if case["cost"] == "l2" else (lambda: GaussianVarCost())
     try:
-        det = PELT(mk(), penalty_scale=case["scale"], min_segment_length=m).fit(X)
-        y = det.predict(X)
+        det = PELT(mk(), penalty_scale=case["scale"], min_segment_length=m)
+        if case.get("warm") is not None:
+            W = np.array(case["warm"], dtype=float)
+            det.fit(W)
+            det.transform_scores(W)
+        det.fit(X)
+        if case.get("via") == "transform_scores":
+            opt = [float(v) for v in det.transform_scores(X).values]
+            y = det.predict(X)
+        else:
+            y = det.predict(X)
+            opt = [float(v) for v in det.scores.values]
         cps = [int(v) for v in y["ilocs"]]
-        opt = [float(v) for v in det.scores.values]
         pen = float(det.penalty_)
         # the cost table as the implementation itself evaluates it (fresh scorer)
         sc = mk().fit(X)
